@@ -476,6 +476,12 @@ class GenOpts:
     allow_mod_without_zid: bool = True
     p_foreign: float = 0.04  # body words with non-ASCII characters (see FOREIGN_WORDS)
     foreign_pool: Optional[list] = None  # default FOREIGN_WORDS
+    p_special_day: float = 0.06  # see SPECIAL_DAYS
+
+
+# days at the edges of what YYMMDD can carry: leap days (incl. 2000-02-29, a leap year only by the 400 rule),
+# both sides of the %y pivot (68/69), first and last representable day
+SPECIAL_DAYS = [dt.date(2000, 2, 29), dt.date(2000, 1, 1), dt.date(2024, 2, 29), dt.date(2028, 2, 29), dt.date(2068, 12, 31), dt.date(2069, 1, 1), dt.date(2070, 6, 15), dt.date(2096, 2, 29), dt.date(2099, 12, 31), dt.date(2000, 12, 31)]
 
 
 class PageGen:
@@ -494,6 +500,8 @@ class PageGen:
         return str(self._u)
 
     def day(self) -> dt.date:
+        if self.o.p_special_day and self.rng.random() < self.o.p_special_day:
+            return self.rng.choice(SPECIAL_DAYS)
         return self.o.day0 + dt.timedelta(days=self.rng.randint(0, self.o.day_span))
 
     def new_zid(self, day: Optional[dt.date] = None) -> str:
@@ -576,6 +584,8 @@ class PageGen:
             if rng.random() < o.p_mod:
                 it.mod = zday + dt.timedelta(days=rng.randint(1, 60))
                 if rng.random() < o.p_mod_equals_create:
+                    it.mod = zday
+                if it.mod.year > 2099:
                     it.mod = zday
         else:
             r = rng.random()
